@@ -871,9 +871,17 @@ impl Env for RealSeeded {
             v.push(e?.path());
         }
         let seed = self.seed;
+        // keyed by the entry's own name only, so that the order does not depend on where the
+        // tree happens to live
         v.sort_by_key(|p| {
             (
-                hash_bytes(seed, p.as_os_str().to_string_lossy().as_bytes()),
+                hash_bytes(
+                    seed,
+                    p.file_name()
+                        .map(|n| n.to_string_lossy().into_owned())
+                        .unwrap_or_default()
+                        .as_bytes(),
+                ),
                 p.clone(),
             )
         });
